@@ -33,12 +33,15 @@ Proof.
     rewrite N. unfold in_uint32, max_uint32 in R. rewrite R. destruct (in_uint64 i); reflexivity.
 Qed.
 
-Lemma enum_has_spec i : (if in_int32 i then enum_has i else false) = ((i =? 0) || (i =? 1) || (i =? 5)).
+Lemma enum_has_spec i : (if in_int32 i then enum_has i else false) = ((i =? 0) || (i =? 2) || (i =? 5) || (i =? 1) || (i =? 3) || (i =? -2)).
 Proof.
   unfold enum_has, enum_numbers. cbn [existsb]. rewrite orb_false_r.
   destruct (Z.eqb_spec i 0) as [E|E]; [subst; reflexivity|].
-  destruct (Z.eqb_spec i 1) as [E1|E1]; [subst; reflexivity|].
+  destruct (Z.eqb_spec i 2) as [E2|E2]; [subst; reflexivity|].
   destruct (Z.eqb_spec i 5) as [E5|E5]; [subst; reflexivity|].
+  destruct (Z.eqb_spec i 1) as [E1|E1]; [subst; reflexivity|].
+  destruct (Z.eqb_spec i 3) as [E3|E3]; [subst; reflexivity|].
+  destruct (Z.eqb_spec i (-2)) as [E6|E6]; [subst; reflexivity|].
   simpl. destruct (in_int32 i); reflexivity.
 Qed.
 
@@ -71,7 +74,8 @@ Section K.
       destruct (in_int32 i); [destruct (enum_has i)|]; rewrite <- C; reflexivity.
     - cbn [enum_value_of]. unfold enum_by_name, enum_names. cbn [find fst].
       destruct (bytes_eqb s [65]); [reflexivity|]. destruct (bytes_eqb s [66]); [reflexivity|].
-      destruct (bytes_eqb s [67]); reflexivity.
+      destruct (bytes_eqb s [67]); [reflexivity|]. destruct (bytes_eqb s [68]); [reflexivity|].
+      destruct (bytes_eqb s [71]); [reflexivity|]. destruct (bytes_eqb s [78]); reflexivity.
     - cbn [enum_value_of]. destruct e; reflexivity.
   Qed.
 
